@@ -153,16 +153,9 @@ def cut_of(got, k, shapes):
     return Poly.from_key(hi[1])
 
 
-def run(ctx):
+def check_n_data(ctx):
+    """(ALG-12) n_data counts the flags 1 and 4 the source holds when it is asked"""
     repo = ctx.repo
-    keep = ctx.fn(repo.func('fit_info', 'FitInfo.keep'))
-    ctx.fn(repo.func('source.source', 'Source.n_data@getter'))
-    keys = state_keys(repo, repo.cls('fit_info', 'FitInfo'))
-    if not keys:
-        raise AnalysisError('FitInfo.__getstate__ keys not found')
-    per_fit = [k for k in keys if k != 'source']
-    shapes = {'model_fluxes': (R, W)}
-    where = loc(keep)
     # n_data: the flags are assigned through the real setter, then n_data is asked for
     ndg = repo.func('source.source', 'Source.n_data@getter')
     I = Interp(repo)
@@ -186,6 +179,19 @@ def run(ctx):
             compare(ctx, 'ALG-12', 'n_data follows the flag array', loc(ndg), nd2, ref2, (), vocab=VOCAB | {'valid2'}, detail_ok='computed from the flags the source holds when it is asked')
     else:
         ctx.ok('ALG-12', 'n_data follows the flag array', loc(ndg), 'the source keeps a private copy of the flags and hands out copies', nontrivial=False)
+
+
+def run(ctx):
+    repo = ctx.repo
+    keep = ctx.fn(repo.func('fit_info', 'FitInfo.keep'))
+    ctx.fn(repo.func('source.source', 'Source.n_data@getter'))
+    keys = state_keys(repo, repo.cls('fit_info', 'FitInfo'))
+    if not keys:
+        raise AnalysisError('FitInfo.__getstate__ keys not found')
+    per_fit = [k for k in keys if k != 'source']
+    shapes = {'model_fluxes': (R, W)}
+    where = loc(keep)
+    check_n_data(ctx)
     for letter in ('A', 'N', 'C', 'D', 'E', 'F'):
         I = Interp(repo, KeepHooks(False))
         I.track_xr = True
